@@ -1,3 +1,4 @@
+pub mod asql;
 pub mod fault;
 pub mod query;
 pub mod readq;
